@@ -105,6 +105,8 @@ int main(int argc, char** argv) {
             char* p = strchr(w, ','); int64_t v[3] = {0, 0, 1}; int k = 0;
             while (p && p[1] && k < 3) { v[k++] = strtoll(p + 1, &p, 10); if (*p != ',') break; }
             a = new(Range, $I(v[0]), $I(v[1]), $I(v[2]));          /* (managed: a raw Range loses its helper objects to the collector - open finding F-C06-raw-view-helpers) */
+          } else if (w[1] == 'Z') {                     /* no object at all: shown as <NULL> */
+            a = NULL;
           } else if (w[1] == 'Y') {                     /* a Type object (shown by its name) */
             var ts[] = { Int, Float, String, Array, List, Table, Tree, Tuple, Ref, Box, Type, File, Range, Function };
             a = Int; for (size_t q = 0; q < sizeof ts / sizeof ts[0]; q++) if (!strcmp(c_str(ts[q]), w + 3)) a = ts[q];
@@ -134,6 +136,16 @@ int main(int argc, char** argv) {
             }
             bl += (size_t)snprintf(body + bl, sizeof body - bl, "%s", close_);
             if (!strstr(c_str(t), body) || cnt != len(a)) showbad++;
+          }
+          if (w[1] == 'D') {        /* one object twice in the Tuple (iteration by foreach is the open finding F-C04-tuple-dup): item by item */
+            static char body[1 << 15]; size_t bl = 0; var* items = ((struct Tuple*)a)->items;
+            bl += (size_t)snprintf(body + bl, sizeof body - bl, "(");
+            for (size_t q = 0; items && items[q] != Terminal && bl < sizeof body - 64; q++) {
+              var es = new_raw(String, $S("")); show_to(items[q], es, 0);
+              bl += (size_t)snprintf(body + bl, sizeof body - bl, "%s%s", q ? ", " : "", c_str(es)); del_raw(es);
+            }
+            bl += (size_t)snprintf(body + bl, sizeof body - bl, ")");
+            if (!strstr(c_str(t), body)) showbad++;
           }
           del_raw(t);
         }
